@@ -193,3 +193,86 @@ Example ctypes_example_file :
   | Err _ => None
   end = Some (K"package ctypes" ++ NL ++ NL ++ K"class CDLL" ++ NL ++ NL ++ K"class c_int" ++ NL).
 Proof. vm_compute. reflexivity. Qed.
+
+(* ---------- well_formed holds for names whose module segments are non-empty and contain no '/' ---------- *)
+Definition slash_free (p : str) : bool := negb (existsb (fun x => Ascii.eqb x "/"%char) p).
+Definition good_name (c : str) : Prop :=
+  mod_parts c <> [] /\ Forall (fun p => slash_free p = true /\ p <> []) (mod_parts c).
+
+Lemma split_slash_free p : slash_free p = true -> split_ch "/"%char p = [p].
+Proof.
+  unfold slash_free. induction p as [|x r IH]; cbn; [reflexivity|]. intro H. apply negb_true_iff in H.
+  apply orb_false_iff in H. destruct H as [H1 H2]. rewrite H1. rewrite IH; [reflexivity|]. apply negb_true_iff. exact H2.
+Qed.
+
+Lemma split_app_slash p r : slash_free p = true -> split_ch "/"%char (p ++ "/"%char :: r) = p :: split_ch "/"%char r.
+Proof.
+  unfold slash_free. induction p as [|x q IH]; cbn [app split_ch existsb]; intro H.
+  - rewrite Ascii.eqb_refl. reflexivity.
+  - apply negb_true_iff in H. apply orb_false_iff in H. destruct H as [H1 H2]. rewrite H1.
+    rewrite IH; [reflexivity|]. apply negb_true_iff. exact H2.
+Qed.
+
+Lemma split_join_slash l : l <> [] -> Forall (fun p => slash_free p = true) l -> split_ch "/"%char (join (K"/") l) = l.
+Proof.
+  induction l as [|p r IH]; [congruence|]. intros _ HF. inversion HF as [|? ? Hp Hr]; subst.
+  destruct r as [|q r'].
+  - cbn [join]. apply split_slash_free. exact Hp.
+  - cbn [join]. change (K"/") with ["/"%char]. cbn [app]. rewrite split_app_slash by exact Hp.
+    f_equal. apply IH; [discriminate|exact Hr].
+Qed.
+
+Lemma join_snoc l x : l <> [] -> join (K"/") (l ++ [x]) = join (K"/") l ++ K"/" ++ x.
+Proof.
+  induction l as [|p r IH]; [congruence|]. intros _. destruct r as [|q r'].
+  - reflexivity.
+  - cbn [app join] in *. rewrite IH by discriminate. rewrite <- !app_assoc. reflexivity.
+Qed.
+
+Lemma join_nonempty l : l <> [] -> Forall (fun p : str => p <> []) l -> join (K"/") l <> [].
+Proof.
+  destruct l as [|p r]; [congruence|]. intros _ HF. inversion HF; subst. destruct r; cbn [join]; [assumption|].
+  destruct p; [congruence|discriminate].
+Qed.
+
+Lemma slash_free_app a b : slash_free a = true -> slash_free b = true -> slash_free (a ++ b) = true.
+Proof.
+  unfold slash_free. intros Ha Hb. apply negb_true_iff in Ha, Hb. apply negb_true_iff. rewrite existsb_app, Ha, Hb. reflexivity.
+Qed.
+
+Theorem good_names_are_well_formed cs : Forall good_name cs -> well_formed cs.
+Proof.
+  intros HG c1 c2 H1 H2. rewrite Forall_forall in HG. destruct (HG c1 H1) as [N1 F1], (HG c2 H2) as [N2 F2].
+  assert (S1 : Forall (fun p => slash_free p = true) (mod_parts c1)) by (eapply Forall_impl; [|exact F1]; cbn; tauto).
+  assert (S2 : Forall (fun p => slash_free p = true) (mod_parts c2)) by (eapply Forall_impl; [|exact F2]; cbn; tauto).
+  assert (E1 : Forall (fun p : str => p <> []) (mod_parts c1)) by (eapply Forall_impl; [|exact F1]; cbn; tauto).
+  assert (E2 : Forall (fun p : str => p <> []) (mod_parts c2)) by (eapply Forall_impl; [|exact F2]; cbn; tauto).
+  split.
+  - unfold mp_of. intro H. rewrite <- (split_join_slash _ N1 S1), <- (split_join_slash _ N2 S2), H. reflexivity.
+  - unfold file_of, mp_of, path_join. intro H.
+    destruct (join (K"/") (mod_parts c1)) eqn:J1; [exfalso; exact (join_nonempty _ N1 E1 J1)|].
+    destruct (join (K"/") (mod_parts c2)) eqn:J2; [exfalso; exact (join_nonempty _ N2 E2 J2)|].
+    rewrite <- J1, <- J2 in H. rewrite <- (join_snoc _ _ N1), <- (join_snoc _ _ N2) in H.
+    assert (L1 : slash_free (last (mod_parts c1) [] ++ K".sdsstub") = true).
+    { apply slash_free_app; [|reflexivity]. clear -N1 S1. induction (mod_parts c1) as [|p r IH]; [congruence|].
+      inversion S1; subst. destruct r; [assumption|]. apply IH; [discriminate|assumption]. }
+    assert (L2 : slash_free (last (mod_parts c2) [] ++ K".sdsstub") = true).
+    { apply slash_free_app; [|reflexivity]. clear -N2 S2. induction (mod_parts c2) as [|p r IH]; [congruence|].
+      inversion S2; subst. destruct r; [assumption|]. apply IH; [discriminate|assumption]. }
+    assert (X : mod_parts c1 ++ [last (mod_parts c1) [] ++ K".sdsstub"] = mod_parts c2 ++ [last (mod_parts c2) [] ++ K".sdsstub"]).
+    { rewrite <- (split_join_slash (mod_parts c1 ++ [_])), <- (split_join_slash (mod_parts c2 ++ [_])), H; try reflexivity.
+      - intro Z. apply app_eq_nil in Z. destruct Z; discriminate.
+      - apply Forall_app. split; [exact S2|constructor; [exact L2|constructor]].
+      - intro Z. apply app_eq_nil in Z. destruct Z; discriminate.
+      - apply Forall_app. split; [exact S1|constructor; [exact L1|constructor]]. }
+    apply app_inj_tail in X. exact (proj1 X).
+Qed.
+
+(* C16: what the output directory held before (an earlier run included) does not influence the placeholder files *)
+Theorem placeholder_files_independent_of_initial_tree nc cs fsa fsb fa ca fb cb :
+  well_formed cs -> go_outside nc cs (fsa, []) = Ok (fa, ca) -> go_outside nc cs (fsb, []) = Ok (fb, cb) ->
+  forall c, In c cs -> fs_lookup (file_of c) fa = fs_lookup (file_of c) fb.
+Proof.
+  intros WF HA HB c Hc.
+  rewrite (placeholder_files_complete nc cs fsa fa ca WF HA c Hc), (placeholder_files_complete nc cs fsb fb cb WF HB c Hc). reflexivity.
+Qed.
